@@ -107,7 +107,7 @@ Definition clk_half (cfg : config) (c : clk) : Q :=
 Definition tadd (a b : Q) : Q := Qred (a + b).
 Definition clk_freq (cfg : config) (c : clk) : Q := match c with CA => pQ (c_fa cfg) | CB => pQ (c_fb cfg) end.
 Definition xfreq (cfg : config) (x : xclk) : Q :=
-  match x with XRoot f => pQ f | XDerived p m => Qred (clk_freq cfg p * pQ m) end.
+  match x with XRoot f => pQ f | XDerived p m => Qred (clk_freq cfg (eff_clk cfg p) * pQ m) end.
 Definition extra_freq (cfg : config) (i : nat) : Q := xfreq cfg (nth i (c_extra cfg) (XRoot (1, 1)%positive)).
 (* ticksSoFar = hlim::floor(now * f); nextTick = ticksSoFar + 1; nextTickTime = ClockRational(nextTick, 1) / f *)
 Definition qfloor (v : Q) : Z := (Qnum v / Zpos (Qden v))%Z.       (* hlim::floor: numerator / denominator *)
